@@ -1215,6 +1215,10 @@ ADAPTORS = {
     (_O, 'unwrap_or_default'): {'Some': ('pass', None), 'None': ('default', None)},
     (_O, 'map_or'): {'Some': ('f', None), 'None': ('arg', None)},
     (_O, 'or_else'): {'Some': ('pass', _SOME), 'None': ('f0', None)},
+    (_O, 'is_some_and'): {'Some': ('f', None), 'None': ('cfalse', None)},
+    (_O, 'is_none_or'): {'Some': ('f', None), 'None': ('ctrue', None)},
+    (_R, 'is_ok_and'): {'Ok': ('f', None), 'Err': ('cfalse', None)},
+    (_R, 'is_err_and'): {'Ok': ('cfalse', None), 'Err': ('f', None)},
 }
 _VIDX = {(_R, 'Ok'): 0, (_R, 'Err'): 1, (_O, 'None'): 0, (_O, 'Some'): 1}
 
@@ -1361,6 +1365,9 @@ def desugar_adaptors(j):
                     new_blocks.append({'cleanup': False, 'stmts': stmts + [asg(copy.deepcopy(dest), rv)], 'term': goto(target)})
                 elif act == 'unit':
                     new_blocks.append({'cleanup': False, 'stmts': stmts + [asg(copy.deepcopy(dest), agg(wrap, []))], 'term': goto(target)})
+                elif act in ('cfalse', 'ctrue'):
+                    cb_ = {'k': 'const', 'ty': 'bool', 'bits': '1' if act == 'ctrue' else '0', 'size': 1, 'text': 'true' if act == 'ctrue' else 'false'}
+                    new_blocks.append({'cleanup': False, 'stmts': stmts + [asg(copy.deepcopy(dest), {'k': 'use', 'op': cb_})], 'term': goto(target)})
                 elif act == 'default':
                     dcal = {'orig': 'std::default::Default::default', 'orig_name': 'Default::default', 'trait_method': True, 'as_value': False, 'kind': 'item', 'path': 'std::default::Default::default',
                             'name': '<%s as std::default::Default>::default' % payload_ty.get('Ok' if enum == _R else 'Some', '_'), 'local': False, 'unresolved': False}
